@@ -29,7 +29,7 @@ def find(events, pred):
 def main():
     rnd = random.Random(7)
     cases = []
-    while len(cases) < 60:
+    while len(cases) < 90:
         c = c10._random_case(rnd, 'r%d' % len(cases))
         cases.append(c)
     results = [c10._safe_execute(c) for c in cases]
@@ -54,16 +54,31 @@ def main():
          lambda e: upd(e, fitv=[[v[0], v[1] + 1] for v in e['fitv']])),
         ('OffsetsBounded', lambda e: e['ev'] in ('construct', 'fit'),
          lambda e: upd(e, off=[[v[0], v[1] + 12] for v in e['off']])),
-        ('Reproduces', square1, lambda e: upd(e, exp=[bump(e['exp'][0], 1e-4)])),
+        ('Reproduces', square1, lambda e: upd(e, exp=[bump(e['dft'][0], 1e-3)])),
         ('TrefIsMean', lambda e: e['ev'] in ('construct', 'fit'), lambda e: upd(e, Tref=bump(e['Tref'], 1e-5))),
-        ('FittedValuesMatchOffsets', lambda e: e['ev'] == 'append',  # an edit that changes the offsets without fitting
+        ('FittedValuesMatchOffsets', lambda e: e['ev'] == 'append' and e['keys'] == e['desc'],  # an edit that changes the offsets without fitting
          lambda e: upd(e, off=[bump(e['off'][0], 1e-2)] + e['off'][1:])),
-        ('AppliesFittedOffsets', lambda e: e['ev'] == 'eval' and any(e['x']),
-         lambda e: upd(e, x=[v + 1 for v in e['x']])),
-        ('EnergyIndependentOfT', lambda e: e['ev'] == 'eval' and any(e['x']),
+        ('AppliesFittedOffsets', lambda e: e['ev'] == 'eval' and e['keys'],
+         lambda e: upd(e, x=[[v[0] + 1, v[1]] for v in e['x']])),
+        ('ClearEmpties', lambda e: e['ev'] == 'clear', lambda e: upd(e, keys=['X'], off=[[1, 0]])),
+        ('ReloadKeepsOffsets', lambda e: e['ev'] == 'reload', lambda e: upd(e, Tref=bump(e['Tref'], 1e-5))),
+        ('GivenOffsetsKept', lambda e: e['ev'] == 'given', lambda e: upd(e, goff=[bump(v, 1e-6) for v in e['goff']])),
+        ('DefaultIsOn', lambda e: e['ev'] == 'eval', lambda e: upd(e, Hdef=[bump2(e['Hdef'][0]), e['Hdef'][1]])),
+        ('Repeatable', lambda e: e['ev'] == 'eval', lambda e: upd(e, Hrep=[e['Hrep'][0], bump2(e['Hrep'][1])])),
+        ('VerboseSlot', lambda e: e['ev'] == 'eval', lambda e: upd(e, ver=[bump2(e['ver'][0]), e['ver'][1]])),
+        ('DirectCalls', lambda e: e['ev'] == 'eval' and e['HnoT'][0] != 0,
+         lambda e: upd(e, HnoT=bump(e['HnoT'], 1e-3))),
+        ('DirectCalls', lambda e: e['ev'] == 'eval',
+         lambda e: upd(e, zeros=[bump2(e['zeros'][0])] + e['zeros'][1:])),
+        ('GAlsoShiftedInUnits', lambda e: e['ev'] == 'eval',
+         lambda e: upd(e, GkJon=[bump(e['GkJon'][0], 1e-3), e['GkJon'][1]])),
+        ('EmpiricalCarriesShift', lambda e: e['ev'] == 'eval' and e['emp']['has'],
+         lambda e: upd(e, emp=dict(e['emp'], H=bump(e['emp']['H'], 1e-2)))),
+        ('EnergyIndependentOfT', lambda e: e['ev'] == 'eval' and any(v[0] for v in e['x']),
          lambda e: upd(e, Hon=[e['Hon'][0], bump(e['Hon'][1], 1e-3)],
                        HkJon=[e['HkJon'][0], bump(e['HkJon'][1], 1e-3)])),
-        ('EnergyInUnits', lambda e: e['ev'] == 'eval', lambda e: upd(e, R=bump(e['R'], 1e-3))),
+        ('EnergyInUnits', lambda e: e['ev'] == 'eval' and any(v[0] for v in e['x']),
+         lambda e: upd(e, R=bump(e['R'], 1e-2))),
         ('GAlsoShifted', lambda e: e['ev'] == 'eval', lambda e: upd(e, Gon=[bump(e['Gon'][0], 1e-4), e['Gon'][1]])),
         ('NoEntropyNoCp', lambda e: e['ev'] == 'eval' and e['S'][0][0][0] != 0,
          lambda e: upd(e, S=[[bump2(e['S'][0][0]), e['S'][0][1], e['S'][0][2]], e['S'][1]])),
@@ -80,7 +95,7 @@ def main():
         for ev, _ in base:
             if name == 'ReproducesExperimental':
                 # needs a judged repro: the first fit of the trace must have one reference
-                if not (len(ev[0]['A']) == 1):
+                if not (ev[0]['ev'] == 'construct' and len(ev[0]['A']) == 1):
                     continue
             i = find(ev, pred)
             if i is None:
